@@ -95,10 +95,18 @@ _TEXT_ATOMS = [
 ]
 
 
+# different strings that a lossy key would identify: canonically equivalent forms (NFC/NFD, Angstrom/A-ring, Hangul
+# syllable/jamo), case variants, surrounding blanks, ligature versus letters. Texts of one table share a lookup list.
+_LOOKALIKE_TEXTS = ["caf\u00e9", "cafe\u0301", "\u212b", "\u00c5", "A\u030a", "\uac00", "\u1100\u1161", "Total", "total", "TOTAL", " Total", "Total ",
+                    "\ufb01", "fi", "stra\u00dfe", "strasse", "\u0130", "i\u0307", "1", "1.0", "01", "x\ty", "x y", "x\ny"]
+
+
 def gen_text(rng, long_ok=True) -> str:
     r = rng.random()
     if r < 0.08:
         return ""
+    if r > 0.88:
+        return rng.choice(_LOOKALIKE_TEXTS)
     if r < 0.16:
         return rng.choice(["A", "x", "Total", "Table 1", "TRUE", "1", "1.5", "0", "nan", "None"])
     if r < 0.22:
